@@ -13,7 +13,14 @@ Schemes == { <<"h","t","t","p">>, <<"h","t","t","p","s">>, <<"H","T","T","P">>, 
 Userinfos == { <<>>, <<"u","@">>, <<"u",":","p","@">>, <<"u","@","v","@">> }
 Hosts == { <<"h",".","x">>, <<"H",".","X">>, <<"h","%","C","3","%","A","9">>, <<"h","%","2","5">>,
            <<"1",".","2",".","3",".","4">>, <<"[",":",":","1","]">>, <<"[",":",":","g","]">>,
-           <<"[","f","e","8","0",":",":","1","%","2","5","e","n","0","]">>, <<>>, <<"h","%","4","1">> }
+           <<"[","f","e","8","0",":",":","1","%","2","5","e","n","0","]">>, <<>>, <<"h","%","4","1">>,
+           \* letter case and escapes: lower-case hex digits, an upper-case zone, zone letters
+           \* written as escapes of either case (the decoded byte must be lower-cased too)
+           <<"h","%","c","3","%","a","9">>,
+           <<"[","f","e","8","0",":",":","1","%","2","5","E","n","0","]">>,
+           <<"[","f","e","8","0",":",":","1","%","2","5","%","6","5","n","0","]">>,
+           <<"[","f","e","8","0",":",":","1","%","2","5","%","4","5","n","0","]">>,
+           <<"[","F","E","8","0",":",":","1","]">> }
 Ports == { <<>>, <<":","8","0">>, <<":">>, <<":","8","a">> }
 PathToks == { <<"/">>, <<".">>, <<"x">>, <<"%","2","e">>, <<"%","2","f">>, <<"%","2","5">>, <<"%">> }
 Paths(n) == { <<>> } \cup { <<"/">> \o FlattenSeq(ts) : ts \in SeqsUpTo(PathToks, n) }
